@@ -39,6 +39,26 @@ pub enum T {
     Quot(u32, Box<T>),
 }
 
+/// The list-form constructors take any IntoIterator: hand the operands over as different kinds of iterators
+/// (exact size hint, lower bound 0 with filter, unknown size with from_fn, chained halves).
+pub fn listy(xs: Vec<RegLan>) -> Box<dyn Iterator<Item = RegLan>> {
+    static CALLS: std::sync::atomic::AtomicUsize = std::sync::atomic::AtomicUsize::new(0);
+    let k = CALLS.fetch_add(1, std::sync::atomic::Ordering::Relaxed);
+    match k % 4 {
+        0 => Box::new(xs.into_iter()),
+        1 => Box::new(xs.into_iter().filter(|_| true)),
+        2 => {
+            let mut it = xs.into_iter();
+            Box::new(std::iter::from_fn(move || it.next()))
+        }
+        _ => {
+            let h = xs.len() / 2;
+            let (a, b) = (xs[..h].to_vec(), xs[h..].to_vec());
+            Box::new(a.into_iter().chain(b.into_iter().filter(|_| true)))
+        }
+    }
+}
+
 fn b(t: &T) -> Box<T> {
     Box::new(t.clone())
 }
@@ -245,7 +265,7 @@ impl T {
             }
             T::CatL(v) => {
                 let xs: Vec<RegLan> = v.iter().map(|x| x.build(m)).collect();
-                m.concat_list(xs)
+                m.concat_list(listy(xs))
             }
             T::Alt2(a, b) => {
                 let (x, y) = (a.build(m), b.build(m));
@@ -253,7 +273,7 @@ impl T {
             }
             T::AltL(v) => {
                 let xs: Vec<RegLan> = v.iter().map(|x| x.build(m)).collect();
-                m.union_list(xs)
+                m.union_list(listy(xs))
             }
             T::And2(a, b) => {
                 let (x, y) = (a.build(m), b.build(m));
@@ -261,7 +281,7 @@ impl T {
             }
             T::AndL(v) => {
                 let xs: Vec<RegLan> = v.iter().map(|x| x.build(m)).collect();
-                m.inter_list(xs)
+                m.inter_list(listy(xs))
             }
             T::Not(a) => {
                 let x = a.build(m);
@@ -274,7 +294,7 @@ impl T {
             T::DiffL(a, v) => {
                 let x = a.build(m);
                 let xs: Vec<RegLan> = v.iter().map(|x| x.build(m)).collect();
-                m.diff_list(x, xs)
+                m.diff_list(x, listy(xs))
             }
             T::Star(a) => {
                 let x = a.build(m);
@@ -355,24 +375,24 @@ impl T {
             T::Cat2(a, b) => smt::re_concat(a.build_smt(), b.build_smt()),
             T::CatL(v) => {
                 let xs: Vec<RegLan> = v.iter().map(|x| x.build_smt()).collect();
-                smt::re_concat_list(xs)
+                smt::re_concat_list(listy(xs))
             }
             T::Alt2(a, b) => smt::re_union(a.build_smt(), b.build_smt()),
             T::AltL(v) => {
                 let xs: Vec<RegLan> = v.iter().map(|x| x.build_smt()).collect();
-                smt::re_union_list(xs)
+                smt::re_union_list(listy(xs))
             }
             T::And2(a, b) => smt::re_inter(a.build_smt(), b.build_smt()),
             T::AndL(v) => {
                 let xs: Vec<RegLan> = v.iter().map(|x| x.build_smt()).collect();
-                smt::re_inter_list(xs)
+                smt::re_inter_list(listy(xs))
             }
             T::Not(a) => smt::re_comp(a.build_smt()),
             T::Diff1(a, b) => smt::re_diff(a.build_smt(), b.build_smt()),
             T::DiffL(a, v) => {
                 let x = a.build_smt();
                 let xs: Vec<RegLan> = v.iter().map(|x| x.build_smt()).collect();
-                smt::re_diff_list(x, xs)
+                smt::re_diff_list(x, listy(xs))
             }
             T::Star(a) => smt::re_star(a.build_smt()),
             T::Plus(a) => smt::re_plus(a.build_smt()),
@@ -858,6 +878,52 @@ pub fn adjacent_range_family(pool: &Pool) -> Vec<T> {
                 v.push(T::Not(Box::new(T::AltL(with_eps))));
                 v.push(T::AltL(ops.clone()));
                 v.push(T::AndL(ops.iter().map(|x| T::Not(b(x))).collect()));
+            }
+        }
+    }
+    v
+}
+
+/// Pairs of DIFFERENT terms with the SAME language (a string spelled in several ways, a star written in several
+/// ways, ...) as the two operands of every binary constructor, at the top and one derivative deep.
+pub fn same_language_family(pool: &Pool) -> Vec<T> {
+    let (a, bb, c) = (T::Chr(pool.a), T::Chr(pool.b), T::Chr(pool.c));
+    let ab = T::Str(vec![pool.a, pool.b]);
+    let groups: Vec<Vec<T>> = vec![
+        // "aab"
+        vec![T::Str(vec![pool.a, pool.a, pool.b]), T::Cat2(Box::new(T::Str(vec![pool.a, pool.a])), b(&bb)),
+             T::Cat2(b(&a), Box::new(T::Cat2(b(&a), b(&bb)))), T::Cat2(Box::new(T::Pow(b(&a), 2)), b(&bb))],
+        // "abab"
+        vec![T::Str(vec![pool.a, pool.b, pool.a, pool.b]), T::Pow(b(&ab), 2), T::Cat2(b(&ab), b(&ab)),
+             T::CatL(vec![a.clone(), bb.clone(), ab.clone()])],
+        // "aaa"
+        vec![T::Pow(b(&a), 3), T::Cat2(b(&a), Box::new(T::Str(vec![pool.a, pool.a]))), T::Loop(b(&a), 3, Some(3))],
+        // (a|b)*
+        vec![T::Star(Box::new(T::Alt2(b(&a), b(&bb)))), T::Star(Box::new(T::Rng(pool.a, pool.b))),
+             T::Star(Box::new(T::Cat2(Box::new(T::Star(b(&a))), Box::new(T::Star(b(&bb))))))],
+        // a+
+        vec![T::Plus(b(&a)), T::Cat2(b(&a), Box::new(T::Star(b(&a)))), T::Loop(b(&a), 1, None), T::Cat2(Box::new(T::Star(b(&a))), b(&a))],
+        // a?
+        vec![T::Opt(b(&a)), T::Alt2(b(&T::Eps), b(&a)), T::Loop(b(&a), 0, Some(1))],
+        // everything
+        vec![T::All, T::Star(b(&T::AllChar)), T::Not(b(&T::None)), T::Alt2(b(&a), Box::new(T::Not(b(&a))))],
+    ];
+    let head = T::Alt2(b(&c), Box::new(T::Chr(pool.c + 1)));
+    let mut v = vec![];
+    for g in &groups {
+        for (i, x) in g.iter().enumerate() {
+            for (j, y) in g.iter().enumerate() {
+                if i == j {
+                    continue;
+                }
+                v.push(T::And2(b(x), b(y)));
+                v.push(T::Diff1(b(x), b(y)));
+                v.push(T::And2(Box::new(T::Cat2(b(&head), b(x))), Box::new(T::Cat2(b(&head), b(y)))));
+                if i < j {
+                    v.push(T::Alt2(b(x), b(y)));
+                    v.push(T::AndL(vec![x.clone(), T::Not(b(y)), T::All]));
+                    v.push(T::Cat2(b(x), b(y)));
+                }
             }
         }
     }
